@@ -185,8 +185,23 @@ Section TreeMerge.
       carried along the same mapping and do not influence the tree ids. *)
   Definition merge_no_resolve (mm : list (list tree)) : list tree :=
     simplify tree_eqb (flatten mm).
-  (** MergedTree::resolve (merged_tree.rs:167-190). *)
-  Definition resolve (ts : list tree) : list tree :=
+  (** MergedTree::resolve (merged_tree.rs:167-201, after the repair 4915e33): merge; stop if
+      resolved; simplify; stop if no side was cancelled; otherwise merge the simplified
+      trees again. Every further round starts from fewer sides, so [length ts] rounds of
+      fuel are never used up (Proofs: resolve_loop_fuel). *)
+  Fixpoint resolve_loop (fuel : nat) (ts : list tree) : list tree :=
+    let m := merge_trees ts in
+    if is_single m then m
+    else
+      let s := simplify tree_eqb m in
+      if Nat.eqb (length s) (length m) then s
+      else match fuel with
+           | O => s
+           | S f => resolve_loop f s
+           end.
+  Definition resolve (ts : list tree) : list tree := resolve_loop (length ts) ts.
+  (** The single-pass version before the repair: one merge, one final simplification. *)
+  Definition resolve_old (ts : list tree) : list tree :=
     let m := merge_trees ts in
     if is_single m then m else simplify tree_eqb m.
   (** MergedTree::merge (merged_tree.rs:336-338). *)
